@@ -9,7 +9,7 @@ namespace {
 using namespace BaseGraph;
 
 struct Counters {
-    uint64_t roundTrips = 0, bytesCompared = 0, handmade = 0, openFailures = 0, labelReads = 0, truncFiles = 0, truncCuts = 0, cutsInsideRecord = 0, cutsAtBoundary = 0,
+    uint64_t largeIndexGraphs = 0, roundTrips = 0, bytesCompared = 0, handmade = 0, openFailures = 0, labelReads = 0, truncFiles = 0, truncCuts = 0, cutsInsideRecord = 0, cutsAtBoundary = 0,
              truncThrew = 0, truncReturned = 0, zeroVertexGraphs = 0, noEdgeGraphs = 0;
     ObsCounters oc;
 } C;
@@ -72,11 +72,16 @@ template <class G, class L> std::string compareLoaded(G &loaded, const GraphSpec
         return o.str();
     }
     loaded.resize(s.n);
-    Expect x;
-    x.directed = s.directed;
-    x.n = s.n;
-    for (auto &e : s.edges) x.e[e] = Expect::Cell();
-    std::string e = checkStructure(loaded, x, C.oc);
+    std::string e;
+    if (s.n > 64) {
+        e = checkSparse(loaded, s);
+    } else {
+        Expect x;
+        x.directed = s.directed;
+        x.n = s.n;
+        for (auto &e2 : s.edges) x.e[e2] = Expect::Cell();
+        e = checkStructure(loaded, x, C.oc);
+    }
     if (!e.empty()) return "loaded graph: " + e;
     if constexpr (!std::is_same<L, NoLabel>::value)
         for (auto &kv : labels) {
@@ -95,7 +100,8 @@ template <template <class...> class GT, class L> void binary(Reporter &R, uint64
     constexpr bool directed = Dir<GT>::value;
     std::string cls = std::string(Dir<GT>::name()) + "<" + bname<L>() + ">";
     Rng r = caseRng(R.args.seed, hashStr(cls + (handmade ? "hm" : "bin")), sub);
-    GraphSpec s = ioSpec(r, directed);
+    GraphSpec s = sub % 4 == 3 ? ioSpecSparse(r, directed) : ioSpec(r, directed);
+    if (s.n > 64) ++C.largeIndexGraphs;
     if (s.n == 0) ++C.zeroVertexGraphs;
     if (s.edges.empty()) ++C.noEdgeGraphs;
     std::map<Edge, L> labels;
@@ -305,6 +311,7 @@ template <template <class...> class GT, class L> void truncate(Reporter &R, uint
 void flush(Reporter &R) {
     C.oc.flush(R);
     R.count("binary_round_trips", C.roundTrips);
+    R.count("graphs_with_large_vertex_indices", C.largeIndexGraphs);
     R.count("file_bytes_compared_with_independent_encoding", C.bytesCompared);
     R.count("hand_made_files_loaded", C.handmade);
     R.count("open_failure_calls", C.openFailures);
